@@ -1096,7 +1096,7 @@ func init() {
 }
 
 func init() {
-	register(&Rule{ID: "HIST.cover", Min: 4, Text: "identity reconciliation covers every stacked operation that carries an array identity: for every operation type of package operations that offers SetCreatedAt or SetPrevCreatedAt (the setters exist for exactly this purpose), History.ReconcileCreatedAt calls that setter on that type, and it also looks at the parent identity (ParentCreatedAt) of the stacked operations, through which edits made inside a re-ticketed container name it — an operation type left out keeps pointing at the identity an undo has just replaced; on the replica that performs the undo the old tombstone is still next to the new element, on a peer that already collected it the change cannot be applied",
+	register(&Rule{ID: "HIST.cover", Min: 4, Text: "identity reconciliation covers every stacked operation that carries an array identity: for every operation type of package operations that offers SetCreatedAt or SetPrevCreatedAt (the setters exist for exactly this purpose), History.ReconcileCreatedAt calls that setter on that type, and it also looks at the parent identity (ParentCreatedAt) of the stacked operations, through which edits made inside a re-ticketed container name it; and executeUndoRedo applies the same rewriting to the operations that follow in the entry it is executing — an operation type left out keeps pointing at the identity an undo has just replaced; on the replica that performs the undo the old tombstone is still next to the new element, on a peer that already collected it the change cannot be applied",
 		Run: func(x *Ctx) {
 			fn := x.fn(docPkg + ".(*History).ReconcileCreatedAt")
 			opI := x.P.Named(opsPkg + ".Operation")
@@ -1105,7 +1105,13 @@ func init() {
 				return
 			}
 			called := map[string]bool{}
-			fns := append([]*ssa.Function{fn}, prog.Closures(fn)...)
+			// ReconcileCreatedAt, its closures and the helpers of the package it calls
+			clo := x.closureOf([]*ssa.Function{fn}, []string{docPkg})
+			var fns []*ssa.Function
+			for g := range clo {
+				fns = append(fns, g)
+				fns = append(fns, prog.Closures(g)...)
+			}
 			for _, g := range fns {
 				for _, c := range prog.CallsIn(g) {
 					if o := prog.CallObj(c); o != nil && o.Type().(*types.Signature).Recv() != nil {
@@ -1141,6 +1147,53 @@ func init() {
 			n++
 			x.check(readsParent, "parent-identity-of-stacked-operations reconciled", x.fpos(fn), "ReconcileCreatedAt also looks at the parent identity of the stacked operations",
 				"ReconcileCreatedAt never looks at ParentCreatedAt: when undo re-inserts a removed array element that is a container under a fresh identity, the operations stacked for edits made inside it (an Increase on the counter, a Set in the object) still name the old identity and run on the tombstone — [counter 0]: increase 5, delete, undo, undo leaves [5], not [0]")
+			// the entry being executed: executeUndoRedo reconciles the operations that follow in the same entry too —
+			// every call of ReconcileCreatedAt there goes with a call, in the same block, of a function that reaches
+			// the identity setters and is handed (a slice of) the executing entries
+			if host := x.fn(docPkg + ".(*Document).executeUndoRedo"); host != nil {
+				recObj, _ := fn.Object().(*types.Func)
+				reachesSetter := func(f *ssa.Function) bool {
+					for g := range x.closureOf([]*ssa.Function{f}, []string{docPkg}) {
+						for _, c := range prog.CallsIn(g) {
+							if o := prog.CallObj(c); o != nil && (o.Name() == "SetCreatedAt" || o.Name() == "SetPrevCreatedAt") {
+								return true
+							}
+						}
+					}
+					return false
+				}
+				var pops []ssa.Value
+				for _, c := range prog.CallsIn(host) {
+					if o := prog.CallObj(c); o != nil && (o.Name() == "PopUndo" || o.Name() == "PopRedo") && c.Value() != nil {
+						pops = append(pops, c.Value())
+					}
+				}
+				for i, c := range callsToIn(host, recObj) {
+					n++
+					ok := false
+					for _, c2 := range prog.CallsIn(host) {
+						callee := c2.Common().StaticCallee()
+						if callee == nil || c2 == c || c2.Block() != c.Block() || callee == fn || !reachesSetter(callee) {
+							continue
+						}
+						for _, a := range c2.Common().Args {
+							if prog.DependsOn(a, func(w ssa.Value) bool {
+								for _, p := range pops {
+									if w == p {
+										return true
+									}
+								}
+								return false
+							}) {
+								ok = true
+							}
+						}
+					}
+					x.check(ok, fmt.Sprintf("func=%s ReconcileCreatedAt#%d rest-of-the-executing-entry-reconciled", prog.FnName(host), i+1), x.pos(c),
+						"the operations that follow in the executing entry are reconciled as well",
+						"the re-issued identity is rewritten on the stacks only: the operations that follow in the entry being executed still name the old identity — undoing an update that appended X and removed it again leaves X in the array; a redo after GC of an update that appended X and Y fails with 'child not found'")
+				}
+			}
 			if n < 4 {
 				x.C.Vacuous(x.id()+" identity setters", n, 4)
 			}
